@@ -479,7 +479,9 @@ def rule_r6(ctx, rep):
             elif code == "CONTENT_EXPECTED_ENUM":
                 cases = [({"c": "a"}, False), ({"c": "zz"}, True), ({"c": None}, True), ({"c": ""}, True)]
             elif code in typed:
-                cases = [({"c": "x", "pred": True}, False), ({"c": "x", "pred": False}, True)]
+                cases = [({"c": "x", "pred": True}, False), ({"c": "x", "pred": False}, True),
+                         ({"c": "", "pred": False}, True),     # the empty string is content, and no typed predicate accepts it
+                         ({"c": None, "pred": False}, False)]  # absent content is not the typed checkers' business
             if not cases or (fi.qname, code) in seen:
                 continue
             seen.add((fi.qname, code))
@@ -507,7 +509,66 @@ def rule_r6(ctx, rep):
                             f"{code}: content {case['c']!r}" + (f" with the type predicate {'holding' if case.get('pred') else 'failing'}" if "pred" in case else "")
                             + f" is {what}; the constraint requires it to be {'reported' if want else 'accepted'}", fi.loc(p.if_node))
                     break
-    rep.floor("checker verdict points", 14)
+    rep.floor("checker verdict points", 20)
+
+
+PARSERS = {"is_float": {"float"}, "is_int": {"int"}, "is_time": {"fromisoformat"}, "is_yeardate": {"strptime"},
+           "is_uri": {"uri_reference", "validate", "URIReference", "from_string"}}
+
+
+def rule_r7(ctx, rep):
+    """a typed predicate decides by its parser alone: the value parameter is only type-tested, truth-tested, logged and
+    handed to the designated parser; any other look at it (a regular expression, a string method, a length or character
+    test, a comparison) narrows or widens the accepted lexical space relative to the parser the constraint is defined by"""
+    prog = ctx.prog
+    for pname, parsers in sorted(PARSERS.items()):
+        fi = rule_method(prog, pname)
+        rep.touch(fi)
+        if not fi.params:
+            continue
+        vp = fi.params[0]
+        # locals that carry the value on (v = val.strip() would already be a violation, v = val is an alias)
+        carriers = {vp}
+        for n in ast.walk(fi.node):
+            if isinstance(n, ast.Assign) and isinstance(n.value, ast.Name) and n.value.id in carriers:
+                for t in n.targets:
+                    if isinstance(t, ast.Name):
+                        carriers.add(t.id)
+        parents = {}
+        for n in ast.walk(fi.node):
+            for c in ast.iter_child_nodes(n):
+                parents[id(c)] = n
+        for n in ast.walk(fi.node):
+            if not (isinstance(n, ast.Name) and n.id in carriers and isinstance(n.ctx, ast.Load)):
+                continue
+            rep.count("uses of the value in typed predicates")
+            par = parents.get(id(n))
+            ok, what = False, norm(par) if par is not None else norm(n)
+            if isinstance(par, ast.Call):
+                fn = par.func
+                fname = fn.id if isinstance(fn, ast.Name) else fn.attr if isinstance(fn, ast.Attribute) else ""
+                is_arg = any(a is n for a in par.args) or any(k.value is n for k in par.keywords)
+                if is_arg and (fname in parsers or fname in ("type", "isinstance", "str", "repr") or fname in ("debug", "info", "warning", "error", "exception")):
+                    ok = True
+            elif isinstance(par, (ast.If, ast.While, ast.IfExp)) and par.test is n:
+                ok = True
+            elif isinstance(par, ast.BoolOp) or (isinstance(par, ast.UnaryOp) and isinstance(par.op, ast.Not)):
+                ok = True
+            elif isinstance(par, ast.Compare):
+                others = [par.left] + list(par.comparators)
+                ok = all(o is n or (isinstance(o, ast.Constant) and o.value is None) for o in others) and all(isinstance(o, (ast.Is, ast.IsNot)) for o in par.ops)
+            elif isinstance(par, (ast.FormattedValue, ast.JoinedStr)):
+                ok = True
+            elif isinstance(par, ast.Assign) and par.value is n:
+                ok = True
+            elif isinstance(par, ast.Return) and False:
+                ok = False
+            rep.oblige(("R7", pname, what[:60]), ok)
+            if not ok:
+                rep.add("R7", fi.qname, par if par is not None else n, f"{pname} looks at the value other than through its parser "
+                        f"({'/'.join(sorted(parsers))}), a type test or a truth test: the accepted lexical space is no longer the parser's "
+                        f"(values the parser accepts are rejected, or the other way round)", fi.loc(n))
+    rep.floor("uses of the value in typed predicates", 10)
 
 
 def run(ctx, rep):
@@ -517,12 +578,12 @@ def run(ctx, rep):
         "every error/warning code reference names a declared member; the reject conditions of the ranged kinds and of the "
         "non-empty check evaluated over an abstract domain (boundaries, +-inf, NaN; content x children x flag) with interval "
         "constants propagated from the dispatch arm")
-    rep.rules_run = ["R1", "R2", "R3", "R4", "R5", "R6"]
+    rep.rules_run = ["R1", "R2", "R3", "R4", "R5", "R6", "R7"]
     rep.assumptions += [
         "NOT decided: the lexical acceptance of float(), int(), strptime, time.fromisoformat and rfc3986 (library semantics)",
         "R4 evaluates the guard conditions, not the parsers: a value is represented by the float it parses to",
     ]
     only = getattr(rep, "only", None)
-    for name, fn in (("R1", rule_r1), ("R2", rule_r2), ("R3", rule_r3), ("R4", rule_r4), ("R5", rule_r5), ("R6", rule_r6)):
+    for name, fn in (("R1", rule_r1), ("R2", rule_r2), ("R3", rule_r3), ("R4", rule_r4), ("R5", rule_r5), ("R6", rule_r6), ("R7", rule_r7)):
         if only in (None, name):
             fn(ctx, rep)
